@@ -2,6 +2,7 @@
 SVD mode basis class.
 """
 
+import numpy as np
 from sklearn.decomposition import TruncatedSVD
 
 from ._base import InvertibleBasis, MatrixMixin
@@ -62,6 +63,15 @@ class SVD(TruncatedSVD, InvertibleBasis, MatrixMixin):
         -------
         self : instance
         """
+        # TruncatedSVD silently returns fewer components when there are fewer
+        # examples than requested modes; n_basis_modes would then promise more
+        # modes than basis_matrix_ holds.
+        if self.n_basis_modes > np.shape(X)[0]:
+            raise ValueError(
+                "X needs at least n_basis_modes ({}) examples/rows".format(
+                    self.n_basis_modes
+                )
+            )
         self.basis_matrix_ = super(SVD, self).fit(X).components_.T
         return self
 
